@@ -132,6 +132,14 @@ func AsCallable(v reflect.Value) (Callable, bool) {
 		return v.Addr().Interface().(Callable), true
 	}
 
+	// A function value that was copied (e.g. into an array built by
+	// a library function) is not addressable. Call a copy of it.
+	if v.IsValid() && reflect.PtrTo(v.Type()).Implements(TypeCallable) && !v.CanAddr() && v.CanInterface() {
+		p := reflect.New(v.Type())
+		p.Elem().Set(v)
+		return p.Interface().(Callable), true
+	}
+
 	return nil, false
 }
 
